@@ -58,23 +58,23 @@ static pid_t g_pid;
 /* ---- fault bookkeeping (interposed between the shim and the explorer) ------------------------------------ */
 enum { M_PASS = 0, M_RECORD, M_REPLAY };
 struct frec {
-    int ord;
+    int inst;                      /* which call of that API function within the repetition */
     char sys[24];
     int alt;
     char api[28];
-    int nth;
+    int nth;                       /* which call of that system call within the API call */
 };
 #define MAX_FREC 8
 static struct frec g_frec[MAX_FREC];
 static int g_nfrec;
 static int g_mode = M_PASS;
 static int g_window = 1;           /* faults are offered only while this is set */
-static int g_ford;                 /* ordinal of the fault point within the repetition */
+static int g_cur_inst;             /* instance number of the API call in progress */
+static struct { char api[28]; int n; } g_apicnt[24];
+static int g_napicnt;
 static int g_call_faults;          /* faults injected during the current API call */
 static int g_rep_faults;           /* faults injected during the current repetition */
-static int g_replay_mismatch;
 static unsigned g_replay_mask = ~0u;
-static int g_replay_bykey;
 static int g_frec_used[MAX_FREC];
 static struct { char sys[24]; int n; } g_percall[24];
 static int g_npercall;
@@ -103,7 +103,6 @@ int __wrap_mc_choose(int n, enum mc_kind kind, const char *label)
         return __real_mc_choose(n, kind, label);
     const char *sys = strncmp(label, "fault:", 6) == 0 ? label + 6 : label;
     int nth = percall_nth(sys);
-    int ord = g_ford++;
     if (g_mode == M_PASS || !g_window)
         return 0;
     if (g_mode == M_RECORD) {
@@ -116,7 +115,7 @@ int __wrap_mc_choose(int n, enum mc_kind kind, const char *label)
         if (a) {
             if (g_nfrec < MAX_FREC) {
                 struct frec *f = &g_frec[g_nfrec++];
-                f->ord = ord;
+                f->inst = g_cur_inst;
                 snprintf(f->sys, sizeof f->sys, "%s", sys);
                 f->alt = a;
                 snprintf(f->api, sizeof f->api, "%s", g_cur_api);
@@ -129,28 +128,43 @@ int __wrap_mc_choose(int n, enum mc_kind kind, const char *label)
         }
         return a;
     }
-    /* M_REPLAY: faults of the measured repetition again, without the explorer */
+    /* M_REPLAY: faults of the measured repetition again, without the explorer: same API function, same call
+       instance, same system call, same occurrence */
     for (int i = 0; i < g_nfrec; i++) {
-        if (!(g_replay_mask & (1u << i)))
+        if (!(g_replay_mask & (1u << i)) || g_frec_used[i])
             continue;
-        int hit;
-        if (g_replay_bykey)
-            hit = !g_frec_used[i] && g_frec[i].nth == nth && !strcmp(g_frec[i].sys, sys) &&
-                  !strcmp(g_frec[i].api, g_cur_api);
-        else
-            hit = g_frec[i].ord == ord;
-        if (!hit)
+        if (g_frec[i].nth != nth || g_frec[i].inst != g_cur_inst || strcmp(g_frec[i].sys, sys) != 0 ||
+            strcmp(g_frec[i].api, g_cur_api) != 0 || g_frec[i].alt >= n)
             continue;
-        if (strcmp(g_frec[i].sys, sys) != 0 || g_frec[i].alt >= n) {
-            g_replay_mismatch = 1;
-            return 0;
-        }
         g_frec_used[i] = 1;
         g_call_faults++;
         g_rep_faults++;
         return g_frec[i].alt;
     }
     return 0;
+}
+
+static int api_instance(const char *api)
+{
+    for (int i = 0; i < g_napicnt; i++)
+        if (!strcmp(g_apicnt[i].api, api))
+            return ++g_apicnt[i].n;
+    if (g_napicnt < 24) {
+        snprintf(g_apicnt[g_napicnt].api, sizeof g_apicnt[0].api, "%s", api);
+        g_apicnt[g_napicnt].n = 1;
+        g_napicnt++;
+    }
+    return 1;
+}
+
+static void rep_begin(int mode, unsigned mask, int rep)
+{
+    g_mode = mode;
+    g_replay_mask = mask;
+    memset(g_frec_used, 0, sizeof g_frec_used);
+    g_napicnt = 0;
+    g_rep_faults = 0;
+    g_rep = rep;
 }
 
 /* description of the faults selected by mask */
@@ -226,6 +240,7 @@ void __wrap_abort(void)
 /* ---- API call wrapper ---------------------------------------------------------------------------------------- */
 #define LAPI(name, call) ({                                  \
     snprintf(g_cur_api, sizeof g_cur_api, "%s", name);       \
+    g_cur_inst = api_instance(name);                         \
     g_call_faults = 0;                                       \
     g_npercall = 0;                                          \
     mc_count(0, 1);                                          \
@@ -515,10 +530,12 @@ static void mkaddr(char *out, size_t n, int k, const char *host)
         snprintf(out, n, "%s:%s:%d", g_tp, host ? host : g_ip, 5000 + 200 * g_rep + k);
 }
 
+static int g_blocking;
+
 static struct xcm_attr_map *nb_attrs(void)
 {
     struct xcm_attr_map *m = xcm_attr_map_create();
-    xcm_attr_map_add_bool(m, "xcm.blocking", false);
+    xcm_attr_map_add_bool(m, "xcm.blocking", g_blocking ? true : false);
     return m;
 }
 
@@ -555,10 +572,14 @@ static struct xcm_socket *do_server(const char *addr, enum bad bad)
     return NULL;
 }
 
+static const char *g_local_addr;       /* xcm.local_addr for the next connects, or NULL */
+
 static struct xcm_socket *do_connect(const char *addr, enum bad bad)
 {
     for (int t = 0; t < 2; t++) {
         struct xcm_attr_map *a = mk_attrs(bad);
+        if (g_local_addr)
+            xcm_attr_map_add_str(a, "xcm.local_addr", g_local_addr);
         struct xcm_socket *s = LAPI("xcm_connect_a", xcm_connect_a(addr, a));
         int e = errno;
         xcm_attr_map_destroy(a);
@@ -841,10 +862,11 @@ static int ctl_roundtrip(struct xcm_socket *server, int cfd, int expect_wakeup)
     if (send(cfd, &req, sizeof req, MSG_NOSIGNAL) != (ssize_t)sizeof req)
         return -1;
     int woke = xfd_readable(server);
-    if (expect_wakeup && !woke && !g_nfrec) {
+    if (expect_wakeup && !woke) {
         char sig[200];
         snprintf(sig, sizeof sig, "C08/cleanup-altered-owner/ctl-client-unregistered/tp=%s", g_tp);
-        VIOL(sig, "after fork + xcm_cleanup in the child a request of an attached control client no longer wakes the "
+        if (!g_nfrec)
+            VIOL(sig, "after fork + xcm_cleanup in the child a request of an attached control client no longer wakes the "
                   "owner's socket: the child removed the client's descriptor from the epoll instance it shares with "
                   "its parent; scenario %s", g_sc);
         return -2;      /* what follows (the owner meets ENOENT from epoll_ctl and aborts) is a consequence */
@@ -1230,6 +1252,68 @@ static void sc_ctlclient(int with_fork)
     raw_close(&cfd);
 }
 
+/* blocking sockets: the failure paths behind socket_finish() inside xcm_connect_a / xcm_accept_a */
+static void sc_refused_blocking(void)
+{
+    char addr[200];
+    mkaddr(addr, sizeof addr, 2, NULL);
+    g_blocking = 1;
+    struct xcm_socket *c = do_connect(addr, BAD_NONE);
+    g_blocking = 0;
+    mc_observe("blocking connect to nobody -> %s", c ? "socket" : "NULL");
+    sclose(&c);
+}
+
+static void sc_conn_blocking(void)
+{
+    char addr[200];
+    unsigned char out[8], in[16];
+    mkaddr(addr, sizeof addr, 1, NULL);
+    g_blocking = 1;
+    struct xcm_socket *srv = do_server(addr, BAD_NONE);
+    struct xcm_socket *c = srv ? do_connect(addr, BAD_NONE) : NULL;
+    struct xcm_socket *p = c ? do_accept(srv, BAD_NONE, NULL) : NULL;
+    g_blocking = 0;
+    if (c && p) {
+        pay_fill(out, 1, 5);
+        int rc = LAPI("xcm_send", xcm_send(c, out, 5));
+        if (rc >= 0) {
+            rc = LAPI("xcm_receive", xcm_receive(p, in, sizeof in));
+            mc_observe("blocking receive -> %d", rc);
+        }
+    }
+    sclose(&c);
+    sclose(&p);
+    sclose(&srv);
+}
+
+/* connect from a chosen local address (bind on the client side), to a name, to a name that does not resolve */
+static void sc_conn_variant(const char *what)
+{
+    char addr[200], caddr[200], la[80];
+    mkaddr(addr, sizeof addr, 1, NULL);
+    snprintf(caddr, sizeof caddr, "%s", addr);
+    if (!strcmp(what, "local")) {
+        snprintf(la, sizeof la, "%s:%s:0", g_tp, g_ip);
+        g_local_addr = la;
+    } else if (!strcmp(what, "dns"))
+        mkaddr(caddr, sizeof caddr, 1, "now.verif.test");
+    else
+        mkaddr(caddr, sizeof caddr, 1, "fail.verif.test");
+    struct xcm_socket *srv = do_server(addr, BAD_NONE);
+    struct xcm_socket *c = srv ? do_connect(caddr, BAD_NONE) : NULL;
+    g_local_addr = NULL;
+    struct xcm_socket *p = c ? do_accept(srv, BAD_NONE, c) : NULL;
+    if (c && p && establish(c, p) == 0)
+        pass_one(c, p, 1);
+    else if (c)
+        for (int i = 0; i < 5; i++)
+            do_finish(c);
+    sclose(&c);
+    sclose(&p);
+    sclose(&srv);
+}
+
 static void body(void)
 {
     g_boundary = 0;
@@ -1254,6 +1338,11 @@ static void body(void)
     else if (!strcmp(g_sc, "two")) sc_two();
     else if (!strcmp(g_sc, "pool101")) sc_pool();
     else if (!strcmp(g_sc, "pool101conn")) sc_poolconn();
+    else if (!strcmp(g_sc, "refused-b")) sc_refused_blocking();
+    else if (!strcmp(g_sc, "conn-b")) sc_conn_blocking();
+    else if (!strcmp(g_sc, "conn-local")) sc_conn_variant("local");
+    else if (!strcmp(g_sc, "conn-dns")) sc_conn_variant("dns");
+    else if (!strcmp(g_sc, "dns-fail")) sc_conn_variant("fail");
     else if (!strcmp(g_sc, "ctlclient")) sc_ctlclient(0);
     else if (!strcmp(g_sc, "ctlfork")) sc_ctlclient(1);
     else
@@ -1335,10 +1424,11 @@ static void scenario(const char *params)
     static const char *ips[1];
     ips[0] = g_ip;
     env_dns_set("silent.verif.test", ips, 1, ENV_DNS_SILENT);
+    env_dns_set("now.verif.test", ips, 1, ENV_DNS_NOW);
+    env_dns_set("fail.verif.test", ips, 0, ENV_DNS_FAIL);
 
     /* warm-up: no faults */
-    g_mode = M_PASS;
-    g_rep = 0;
+    rep_begin(M_PASS, 0, 0);
     body();
     mc_count(2, 1);
     int warm_failed = g_failed_steps;
@@ -1350,10 +1440,7 @@ static void scenario(const char *params)
         mc_observe("warm-up: %d library descriptor(s) open, %d stray close(s)", env_lib_fds_open(), g_base_stray);
 
     /* measured repetition: the explorer decides the faults */
-    g_mode = M_RECORD;
-    g_ford = 0;
-    g_rep_faults = 0;
-    g_rep = 1;
+    rep_begin(M_RECORD, 0, 1);
     body();
     mc_count(2, 1);
     g_mode = M_PASS;
@@ -1381,11 +1468,7 @@ static void scenario(const char *params)
         if (reps > 10)
             reps = 10;
         for (int r = 0; r < reps; r++) {
-            g_mode = M_REPLAY;
-            g_replay_mask = ~0u;
-            g_replay_bykey = 0;
-            g_ford = 0;
-            g_rep = 2 + r;
+            rep_begin(M_REPLAY, ~0u, 2 + r);
             body();
             hs[nh++] = heap_now();
             mc_count(2, 1);
@@ -1393,16 +1476,11 @@ static void scenario(const char *params)
         g_mode = M_PASS;
         h2 = hs[nh - 2];
         h3 = hs[nh - 1];
-        if (g_replay_mismatch)
-            mc_info("C08/heap-recheck-diverged", "the deterministic re-injection met a different call sequence (%s, %s)",
-                    g_sc, g_tp);
-        else {
-            /* steady growth: every re-injection added to the heap */
-            heap_leak = reps >= 2;
-            for (int i = 2; i < nh; i++)
-                if (hs[i] <= hs[i - 1])
-                    heap_leak = 0;
-        }
+        /* steady growth: every re-injection added to the heap */
+        heap_leak = reps >= 2;
+        for (int i = 2; i < nh; i++)
+            if (hs[i] <= hs[i - 1])
+                heap_leak = 0;
     }
     char heaptxt[260];
     {
@@ -1421,12 +1499,7 @@ static void scenario(const char *params)
             fd_snapshot(&b_fds);
             files_snapshot(&b_files);
             int b_stray = env_stray_closes();
-            g_mode = M_REPLAY;
-            g_replay_mask = 1u << i;
-            g_replay_bykey = 1;
-            memset(g_frec_used, 0, sizeof g_frec_used);
-            g_ford = 0;
-            g_rep = 14 + i;
+            rep_begin(M_REPLAY, 1u << i, 14 + i);
             body();
             g_mode = M_PASS;
             mc_count(2, 1);
